@@ -301,3 +301,4 @@ disco = _std_api.disco
 get_instructions = _std_api.get_instructions
 findlinestarts = _std_api.findlinestarts
 findlabels = _std_api.findlabels
+stack_effect = _std_api.stack_effect
